@@ -531,6 +531,43 @@ def property_failures(X, info=None):
     return bad
 
 
+def close_tau_history():
+    """HISTORY oracle (replay entry point): select_copula(X1); select_copula(X2) in ONE process, where the Kendall taus of X1
+    and X2 agree to 4 decimals but differ (one exchange of neighbouring values).  The second result must be calibrated to X2's own tau
+    (the choice is a function of X: no process-wide state keyed on a rounded statistic)."""
+    import copulas.bivariate as B
+    X1 = lib_sample('Frank', 0.5, 400, 20260930)
+    o = np.argsort(X1[:, 1])
+    chain = [X1]
+    ks = [k for k in range(60, 340, 3) if X1[o[k], 0] < X1[o[k + 1], 0]][:4]      # concordant neighbours: each exchange lowers tau
+    for k in ks:                 # taus step by 4/(n(n-1)) = 2.5e-5: at least two consecutive tables share every rounding to <= 4 decimals
+        Xn = chain[-1].copy()
+        a, b = o[k], o[k + 1]
+        Xn[[a, b], 1] = Xn[[b, a], 1]
+        chain.append(Xn)
+    out = []
+    for X in chain:
+        with np.errstate(all='ignore'), warnings.catch_warnings():
+            warnings.simplefilter('ignore')
+            r = B.select_copula(X.copy())
+        kt = true_kendall(X)
+        if not (r.tau == kt or abs(r.tau - kt) <= 1e-12):
+            return f'tau {r.tau!r} is not the Kendall tau {kt!r} of the table'
+        out.append((type(r).__name__, float(r.tau), float(r.theta)))
+        if type(r).__name__ == 'Frank':
+            res = frank_residual(float(r.tau), float(r.theta))
+            if abs(res) > FRANK_TOL:
+                return (f'after select_copula on tables with taus {[t for _, t, _ in out[:-1]]!r}, select_copula on a table with tau {r.tau!r} '
+                        f'returns Frank theta {r.theta!r}: residual of the tau equation {res:.3e} (theta belongs to another table)')
+        elif type(r).__name__ == 'Clayton' and not close_f(float(r.theta), 2 * r.tau / (1 - r.tau)):
+            return f'Clayton theta {r.theta!r} is not 2 tau/(1-tau) for tau {r.tau!r}'
+        elif type(r).__name__ == 'Gumbel' and not close_f(float(r.theta), 1 / (1 - r.tau)):
+            return f'Gumbel theta {r.theta!r} is not 1/(1-tau) for tau {r.tau!r}'
+    if len({t for _, t, _ in out}) != len(out):
+        return 'oracle design error: two tables of the chain have the same tau'
+    return None
+
+
 # ----------------------------------------------------------------------------- the check
 def run(ctx):
     quick = ctx.tier == 'quick'
@@ -596,6 +633,17 @@ def run(ctx):
             stable = key if key.startswith('F') else f'{key}:{name.split("-n")[0]}'
             ctx.violation(stable, f'select_copula on dataset {name}: {what}',
                           {'dataset': name, 'X': np.asarray(X).tolist(), 'what': what, 'repro': repro_property(X)})
+        if name == ds[-1][0]:
+            try:
+                why = close_tau_history()
+            except Exception as ex:
+                why = f'oracle raised {type(ex).__name__}: {str(ex)[:120]}'
+            ctx.obligation('oracle:close-tau-history', why is None, 'witness-search', why or '')
+            ctx.case(('oracle', 'close-tau-history'), None)
+            if why:
+                ctx.violation('oracle:history:close-tau', why,
+                              {'history': 'select_copula(X1); select_copula(X2), taus equal to 4 decimals',
+                               'repro': 'from vf.props import C11\nwhy = C11.close_tau_history()\nprint(why)\nassert why is None\n'})
         r = pinfo.get('result')
         if r and r[0] == 'ok' and r[1] == 'Frank' and 0.3 < r[3] < 30 and len(frank_goals) < (3 if quick else 20):
             frank_goals.append({'term': f'frank__tau_to_theta (fun f a b => RInt f a b) {frac(r[2])} {frac(r[3])}', 'y': 0.0,
